@@ -44,12 +44,12 @@ Proof.
   unfold cb, callback, callback_at, bind, get, getg, putg, ret; cbn; rewrite Hval; cbn; reflexivity.
 Qed.
 Lemma mp11_rejected_row fuel r x ev rn g :
-  g_plan g = [] -> r_guard x = true -> memb (r_id x) (g_val g) = false ->
+  g_plan g = [] -> r_guard x = true -> memb (r_id x) (g_val g) = false -> r_exitpt x = None ->
   mexec_row cf contained mc children fuel r x ev rn g =
     (Some HANDLED_GUARD_REJECT, rn, bump g [Cb (KGuard false) [] (r_id x) ev false (act rn)]).
 Proof.
-  intros Hplan Hg Hval. destruct g as [tr cbn0 plan val up bad]. cbn in Hplan, Hval. subst plan.
-  unfold mexec_row. unfold mrun_guard, guard_value. rewrite Hg.
+  intros Hplan Hg Hval Hex. destruct g as [tr cbn0 plan val up bad]. cbn in Hplan, Hval. subst plan.
+  unfold mexec_row. rewrite Hex. unfold mrun_guard, guard_value. rewrite Hg.
   destruct (tgt_state (r_tgt x));
   unfold mcb, callback, callback_at, bind, get, getg, putg, ret; cbn; rewrite Hval; cbn; reflexivity.
 Qed.
